@@ -636,3 +636,115 @@ Theorem witness_is_cut_off_now :
     fst (run F bld 150 nested_budget_program fresh_state) = OErr (ETaskFailure name_call1 ETimeout) t /\
     (st_count (snd (run F bld 150 nested_budget_program fresh_state)) <= 150)%N.
 Proof. intros F bld. destruct bld; vm_compute; eexists; (split; [reflexivity|discriminate]). Qed.
+
+(* ------------------------------------------------------------------ *)
+(* C18: host functions - argument order, conversion, error wrapping    *)
+(* ------------------------------------------------------------------ *)
+
+From Cao Require Import StacksProofs.
+
+Definition stack_of (s : state) : list value := vs_abs (st_stack s).
+Definition stack_ok (s : state) : Prop := vs_inv (st_stack s).
+
+Lemma speek_abs s n :
+  stack_ok s ->
+  speek s n = if n <? length (stack_of s)
+              then nth (length (stack_of s) - n - 1) (stack_of s) VNil else VNil.
+Proof.
+  intros H. unfold speek, stack_of.
+  pose proof (@vs_step_refines value VNil (st_stack s) (VPeek value n) _ _ H eq_refl) as R.
+  destruct (vs_step VNil (st_stack s) (VPeek value n)) as [k o]. destruct R as (-> & _). reflexivity.
+Qed.
+
+Lemma spop_n_abs s n :
+  stack_ok s ->
+  stack_ok (spop_n s n) /\
+  stack_of (spop_n s n) = firstn (length (stack_of s) - Nat.min (length (stack_of s)) n) (stack_of s) /\
+  length (vdata (st_stack (spop_n s n))) = length (vdata (st_stack s)).
+Proof.
+  intros H. unfold spop_n, stack_of, stack_ok. cbn [st_stack set_stack].
+  pose proof (@vs_step_refines value VNil (st_stack s) (VPopN value n) _ _ H eq_refl) as R.
+  cbn [vs_step] in R. destruct (vs_pop_n VNil (st_stack s) n) as [k o]. cbn [fst].
+  destruct R as (_ & Ha & Hi & Hl). auto.
+Qed.
+
+Lemma spush_abs s v :
+  stack_ok s -> S (length (stack_of s)) < length (vdata (st_stack s)) ->
+  exists s', spush s v = Some s' /\ stack_ok s' /\ stack_of s' = stack_of s ++ [v] /\
+             st_calls s' = st_calls s /\ st_globals s' = st_globals s /\ st_heap s' = st_heap s /\
+             st_log s' = st_log s /\ st_open s' = st_open s.
+Proof.
+  intros H Hc. unfold spush, stack_of, stack_ok in *.
+  assert (E : (S (length (vs_abs (st_stack s))) <? length (vdata (st_stack s))) = true) by (apply Nat.ltb_lt; lia).
+  assert (Hsp : sp_step VNil (length (vdata (st_stack s))) (vs_abs (st_stack s)) (VPush v)
+                = Some (vs_abs (st_stack s) ++ [v], OUnit value)).
+  { cbn [sp_step]. unfold sp_push. rewrite E. reflexivity. }
+  pose proof (@vs_step_refines value VNil (st_stack s) (VPush v) _ _ H Hsp) as R.
+  cbn [vs_step] in R.
+  destruct (vs_push (st_stack s) v) as [k o]. destruct R as (-> & Ha & Hi & _).
+  eexists; split; [reflexivity|]. cbn [st_stack set_stack st_calls st_globals st_heap st_log st_open].
+  repeat split; auto.
+Qed.
+
+Lemma find_native_sub2 : find_native (handle_of_bytes name_sub2) all_natives = Some NSub2.
+Proof. vm_compute. reflexivity. Qed.
+Lemma find_native_fail0 : find_native (handle_of_bytes name_fail0) all_natives = Some NFail0.
+Proof. vm_compute. reflexivity. Qed.
+
+(* sub2(a: i64, b: i64): with the stack  l ++ [v1; v2]  the native receives a = conv v1 (declared first) and
+   b = conv v2, exactly the two arguments are popped, the result is pushed, nothing else changes *)
+Theorem native_args_sub2 : forall F P re fuel s l v1 v2 a b,
+  stack_ok s -> stack_of s = l ++ [v1; v2] ->
+  to_i64 F (st_heap s) v1 = Some a -> to_i64 F (st_heap s) v2 = Some b ->
+  exists s',
+    call_native_fuel F P re (S fuel) (handle_of_bytes name_sub2) s = NOk (VInt (wrap_i64 (a - b))) s' /\
+    stack_of s' = l ++ [VInt (wrap_i64 (a - b))] /\
+    st_log s' = st_log s ++ [[TInt a; TInt b]] /\
+    st_calls s' = st_calls s /\ st_globals s' = st_globals s /\ st_heap s' = st_heap s.
+Proof.
+  intros F P re fuel s l v1 v2 a b Hok Hst Ha Hb.
+  cbn [call_native_fuel]. rewrite find_native_sub2. cbn [native_body].
+  assert (Hlen : length (stack_of s) = length l + 2) by (rewrite Hst, app_length; cbn; lia).
+  rewrite (speek_abs 0 Hok), (speek_abs 1 Hok), Hlen.
+  replace (0 <? length l + 2) with true by (symmetry; apply Nat.ltb_lt; lia).
+  replace (1 <? length l + 2) with true by (symmetry; apply Nat.ltb_lt; lia).
+  rewrite Hst.
+  replace (length l + 2 - 0 - 1) with (length l + 1) by lia.
+  replace (length l + 2 - 1 - 1) with (length l + 0) by lia.
+  rewrite !app_nth2_plus. cbn [nth]. rewrite Hb, Ha. cbn [native_arity].
+  set (s1 := log_push s [TInt a; TInt b]).
+  assert (Hok1 : stack_ok s1) by exact Hok.
+  assert (Hst1 : stack_of s1 = l ++ [v1; v2]) by exact Hst.
+  destruct (spop_n_abs 2 Hok1) as (Hok2 & Hst2 & Hcap).
+  rewrite Hst1 in Hst2. rewrite app_length in Hst2. cbn [length] in Hst2.
+  replace (length l + 2 - Nat.min (length l + 2) 2) with (length l) in Hst2 by lia.
+  rewrite firstn_app, firstn_all, Nat.sub_diag in Hst2. cbn [firstn] in Hst2. rewrite app_nil_r in Hst2.
+  assert (Hfit : S (length (stack_of (spop_n s1 2))) < length (vdata (st_stack (spop_n s1 2)))).
+  { rewrite Hst2, Hcap. unfold stack_ok, vs_inv in Hok1.
+    pose proof (abs_length Hok1) as HL. fold (stack_of s1) in HL. rewrite Hst1, app_length in HL. cbn [length] in HL. lia. }
+  destruct (spush_abs (VInt (wrap_i64 (a - b))) Hok2 Hfit) as (s' & Hp & _ & Hs' & Hc & Hg & Hh & Hl & _).
+  cbv zeta. rewrite Hp. exists s'. split; [reflexivity|].
+  rewrite Hs', Hst2. repeat split; auto.
+Qed.
+
+(* an error returned by a native surfaces as TaskFailure carrying the registered name; its (typed) arguments are
+   popped *)
+Theorem native_error_wrapped : forall F P re fuel h n s e s1,
+  find_native h all_natives = Some n ->
+  native_body F P re (call_native_fuel F P re fuel) n s = NErr e s1 ->
+  call_native_fuel F P re (S fuel) h s = NErr (ETaskFailure (native_name n) e) (spop_n s1 (native_arity n)).
+Proof. intros F P re fuel h n s e s1 Hf Hb. cbn [call_native_fuel]. rewrite Hf, Hb. reflexivity. Qed.
+
+Corollary fail0_is_task_failure : forall F P re fuel s,
+  call_native_fuel F P re (S fuel) (handle_of_bytes name_fail0) s = NErr (ETaskFailure name_fail0 EUnimplemented) s.
+Proof.
+  intros. rewrite (@native_error_wrapped F P re fuel _ NFail0 s EUnimplemented s find_native_fail0 eq_refl).
+  destruct s as [[c d] ? ? ? ? ? ? ?]. unfold spop_n, vs_pop_n. cbn.
+  repeat f_equal; try lia. destruct c; reflexivity.
+Qed.
+
+(* a name that was not registered is ProcedureNotFound and the VM state is untouched *)
+Theorem native_unknown : forall F P re fuel h s,
+  find_native h all_natives = None ->
+  call_native_fuel F P re (S fuel) h s = NErr (EProcedureNotFound h) s.
+Proof. intros F P re fuel h s Hf. cbn [call_native_fuel]. rewrite Hf. reflexivity. Qed.
